@@ -547,8 +547,8 @@ theorem addCore_clob (R : Rules) (K : Nat → Kind) :
 
 /-- the backing fields agree with the graph, except possibly at fact `e` (an asserted relation whose element is
 stored only after its inference has run: `_on_add` comes before `super().append`) -/
-structure FieldsAgree (K : Nat → Kind) (e : Option Fact) (σ : State) : Prop where
-  cont : ∀ f s t, K f ≠ .single → some (f, s, t) ≠ e → (t ∈ σ.st f s ↔ (f, s, t) ∈ σ.g)
+structure FieldsAgree (K : Nat → Kind) (ex : List Fact) (σ : State) : Prop where
+  cont : ∀ f s t, K f ≠ .single → (f, s, t) ∉ ex → (t ∈ σ.st f s ↔ (f, s, t) ∈ σ.g)
   sing : ∀ f s v, K f = .single → v ∈ σ.st f s → (f, s, v) ∈ σ.g
   nonempty : ∀ f s t, K f = .single → (f, s, t) ∈ σ.g → σ.st f s ≠ []
 
@@ -570,8 +570,8 @@ theorem Store.set_other (st : Store) (f o f' o' : Nat) (v : List Nat) (h : ¬ (f
     st.set f o v f' o' = st f' o' := by
   simp [Store.get_set, h]
 
-theorem FieldsAgree.congr {K : Nat → Kind} {e : Option Fact} {σ τ : State} (h : FieldsAgree K e σ)
-    (hg : τ.g = σ.g) (hs : ∀ f s, τ.st f s = σ.st f s) : FieldsAgree K e τ :=
+theorem FieldsAgree.congr {K : Nat → Kind} {ex : List Fact} {σ τ : State} (h : FieldsAgree K ex σ)
+    (hg : τ.g = σ.g) (hs : ∀ f s, τ.st f s = σ.st f s) : FieldsAgree K ex τ :=
   ⟨fun f s t a b => by rw [hs, hg]; exact h.cont f s t a b,
    fun f s v a b => by rw [hs] at b; rw [hg]; exact h.sing f s v a b,
    fun f s t a b => by rw [hg] at b; rw [hs]; exact h.nonempty f s t a b⟩
@@ -581,7 +581,8 @@ recursive (inferred) calls preserve -/
 theorem addCore_succ_preserves (R : Rules) (K : Nat → Kind) (n : Nat) (P : State → Prop)
     (hP : ∀ σ q, P σ → P (addCore R K n σ q true)) (σ : State) (r : Fact) (b : Bool)
     (h1 : r ∈ σ.g → P σ)
-    (h2 : r ∉ σ.g → P { σ with g := r :: σ.g, st := if b then updateValue K σ.st r else σ.st }) :
+    (h2 : r ∉ σ.g → P { σ with g := r :: σ.g, st := if b then updateValue K σ.st r else σ.st,
+                                inf := if b then markInf K σ r else σ.inf }) :
     P (addCore R K (n + 1) σ r b) := by
   have hf : ∀ (ts : List Fact) (a : State), P a → P (ts.foldl (fun h q => addCore R K n h q true) a) :=
     foldl_inv P _ (fun a q ha => hP a q ha)
@@ -594,9 +595,9 @@ theorem addCore_succ_preserves (R : Rules) (K : Nat → Kind) (n : Nat) (P : Sta
     · simp only [Bool.false_eq_true, if_false]; exact hf _ _ p1
     · simp only [if_true]; exact hf _ _ (hf _ _ (hf _ _ p1))
 
-theorem agree_insert_inferred (K : Nat → Kind) (e : Option Fact) (σ : State) (r : Fact)
+theorem agree_insert_inferred (K : Nat → Kind) (e : List Fact) (σ : State) (r : Fact) (inf' : List Fact)
     (h : FieldsAgree K e σ) :
-    FieldsAgree K e { σ with g := r :: σ.g, st := updateValue K σ.st r } := by
+    FieldsAgree K e { σ with g := r :: σ.g, st := updateValue K σ.st r, inf := inf' } := by
   obtain ⟨f0, s0, t0⟩ := r
   cases hk : K f0 with
   | single =>
@@ -677,7 +678,7 @@ theorem agree_insert_inferred (K : Nat → Kind) (e : Option Fact) (σ : State) 
       simp only [List.mem_cons, Prod.mk.injEq, hff, false_and, false_or] at hm
       exact h.nonempty f s t hkf hm
 
-theorem addCore_agree (R : Rules) (K : Nat → Kind) (e : Option Fact) :
+theorem addCore_agree (R : Rules) (K : Nat → Kind) (e : List Fact) :
     ∀ n σ r, FieldsAgree K e σ → FieldsAgree K e (addCore R K n σ r true) := by
   intro n
   induction n with
@@ -686,7 +687,7 @@ theorem addCore_agree (R : Rules) (K : Nat → Kind) (e : Option Fact) :
     intro σ r h
     apply addCore_succ_preserves R K n (FieldsAgree K e) ih σ r true
     · intro _; exact h
-    · intro _; exact agree_insert_inferred K e σ r h
+    · intro _; exact agree_insert_inferred K e σ r _ h
 
 theorem addFact_mono (R : Rules) : ∀ n g r x, x ∈ g → x ∈ addFact R n g r := by
   intro n
@@ -717,26 +718,28 @@ theorem addFact_self (R : Rules) (n : Nat) (g : List Fact) (r : Fact) : r ∈ ad
     · simp only [Bool.false_eq_true, if_false]; exact hf _ _ h1
     · simp only [if_true]; exact hf _ _ (hf _ _ (hf _ _ h1))
 
-/-- `_add_item` on a container field keeps the fields in agreement with the graph -/
-theorem addItem_agree (R : Rules) (K : Nat → Kind) (n : Nat) (σ : State) (f s t : Nat)
-    (hk : K f ≠ .single) (h : FieldsAgree K none σ) :
-    FieldsAgree K none (addItem R K (n + 1) σ f s t) := by
-  have hweak : ∀ τ : State, FieldsAgree K none τ → FieldsAgree K (some (f, s, t)) τ :=
-    fun τ hτ => ⟨fun f' s' t' a _ => hτ.cont f' s' t' a (by simp), hτ.sing, hτ.nonempty⟩
-  have h' : FieldsAgree K (some (f, s, t)) (addCore R K (n + 1) σ (f, s, t) false) := by
+/-- `_add_item` on a container field keeps the fields in agreement with the graph (outside any exclusion list) -/
+theorem addItem_agree (R : Rules) (K : Nat → Kind) (n : Nat) (σ : State) (f s t : Nat) (ex : List Fact)
+    (hk : K f ≠ .single) (h : FieldsAgree K ex σ) :
+    FieldsAgree K ex (addItem R K (n + 1) σ f s t) := by
+  have hweak : ∀ τ : State, FieldsAgree K ex τ → FieldsAgree K ((f, s, t) :: ex) τ :=
+    fun τ hτ => ⟨fun f' s' t' a b => hτ.cont f' s' t' a (fun hh => b (List.mem_cons_of_mem _ hh)), hτ.sing, hτ.nonempty⟩
+  have h' : FieldsAgree K ((f, s, t) :: ex) (addCore R K (n + 1) σ (f, s, t) false) := by
     apply addCore_succ_preserves R K n _ (addCore_agree R K _ n) σ (f, s, t) false
     · intro _; exact hweak σ h
     · intro hm
       refine ⟨?_, ?_, ?_⟩
       · intro f' s' t' hkf hne
-        have hne' : (f', s', t') ≠ (f, s, t) := fun hh => hne (by rw [hh])
+        have hne' : (f', s', t') ≠ (f, s, t) := fun hh => hne (by rw [hh]; exact List.mem_cons_self)
+        have hne2 : (f', s', t') ∉ ex := fun hh => hne (List.mem_cons_of_mem _ hh)
         show t' ∈ σ.st f' s' ↔ (f', s', t') ∈ (f, s, t) :: σ.g
-        rw [h.cont f' s' t' hkf (by simp)]
+        rw [h.cont f' s' t' hkf hne2]
         simp [hne']
       · intro f' s' v hkf hv
         exact List.mem_cons_of_mem _ (h.sing f' s' v hkf hv)
       · intro f' s' t' hkf hm'
         have hff : f' ≠ f := fun hh => hk (hh ▸ hkf)
+        change (f', s', t') ∈ (f, s, t) :: σ.g at hm'
         simp only [List.mem_cons, Prod.mk.injEq, hff, false_and, false_or] at hm'
         exact h.nonempty f' s' t' hkf hm'
   have hr : (f, s, t) ∈ (addCore R K (n + 1) σ (f, s, t) false).g := by
@@ -757,18 +760,25 @@ theorem addItem_agree (R : Rules) (K : Nat → Kind) (n : Nat) (σ : State) (f s
         · rintro (hh | rfl); exact hh; exact hc
       · simp [hc, List.mem_append]
   refine ⟨?_, ?_, ?_⟩
-  · intro f' s' t' hkf _
+  · intro f' s' t' hkf hex
     show t' ∈ (τ.st.set f s _) f' s' ↔ (f', s', t') ∈ τ.g
     by_cases hfs : f' = f ∧ s' = s
     · obtain ⟨rfl, rfl⟩ := hfs
       rw [Store.set_same, hmem]
       by_cases ht : t' = t
       · subst ht; simp [hr]
-      · have hne : some (f', s', t') ≠ some (f', s', t) := by simp [ht]
+      · have hne : (f', s', t') ∉ (f', s', t) :: ex := by
+          intro hh
+          rcases List.mem_cons.mp hh with h1 | h1
+          · simp only [Prod.mk.injEq, true_and] at h1; exact ht h1
+          · exact hex h1
         rw [h'.cont f' s' t' hkf hne]; simp [ht]
     · rw [Store.set_other _ _ _ _ _ _ hfs]
-      have hne : some (f', s', t') ≠ some (f, s, t) := by
-        intro hh; simp only [Option.some.injEq, Prod.mk.injEq] at hh; exact hfs ⟨hh.1, hh.2.1⟩
+      have hne : (f', s', t') ∉ (f, s, t) :: ex := by
+        intro hh
+        rcases List.mem_cons.mp hh with h1 | h1
+        · simp only [Prod.mk.injEq] at h1; exact hfs ⟨h1.1, h1.2.1⟩
+        · exact hex h1
       exact h'.cont f' s' t' hkf hne
   · intro f' s' v hkf hv
     have hff : ¬ (f' = f ∧ s' = s) := fun hh => hk (hh.1 ▸ hkf)
@@ -818,7 +828,7 @@ theorem step_g (R : Rules) (K : Nat → Kind) (n : Nat) (σ : State) (op : Op) :
   | set1 f s t => simp only [step, Op.facts, List.foldl_cons, List.foldl_nil]; rw [addCore_g]
   | add f s t => simp only [step, Op.facts, List.foldl_cons, List.foldl_nil]; rw [addItem_g]
   | assign f s xs =>
-    simp only [step, Op.facts, List.foldl_map]
+    simp only [step, Op.facts, List.foldl_map, reAdd]
     exact foldl_proj State.g _ (fun g t => addFact R n g (f, s, t)) (fun a t => addItem_g R K n a f s t) _ _
 
 theorem runOps_g (R : Rules) (K : Nat → Kind) (n : Nat) (ops : List Op) :
@@ -860,10 +870,10 @@ theorem step_clob_false (R : Rules) (K : Nat → Kind) (n : Nat) (σ : State) (o
   | set1 f s t => simpa [step, addCore_clob] using h
   | add f s t => simpa [step, addItem_clob] using h
   | assign f s xs =>
-    simp only [step] at h
+    simp only [step, reAdd] at h
     have := foldl_proj State.clob (fun h t => addItem R K n h f s t) (fun c _ => c)
       (fun a t => addItem_clob R K n a f s t) (hashOrder xs)
-      { σ with st := σ.st.set f s [], clob := σ.clob || !(σ.st f s).isEmpty }
+      { σ with st := σ.st.set f s [], clob := σ.clob || (σ.st f s).any (fun t => !σ.inf.contains (f, s, t)) }
     rw [this] at h
     have hc : ∀ (ts : List Nat) (c : Bool), ts.foldl (fun c _ => c) c = c := by
       intro ts; induction ts with
@@ -873,9 +883,132 @@ theorem step_clob_false (R : Rules) (K : Nat → Kind) (n : Nat) (σ : State) (o
     simp only [Bool.or_eq_false_iff] at h
     exact h.1
 
+/-! ### What inference put into the fields (`_inferred_items`) -/
+
+/-- every element remembered as inferred belongs to a relation of the graph, on a container field -/
+def MarkInv (K : Nat → Kind) (σ : State) : Prop := ∀ r ∈ σ.inf, r ∈ σ.g ∧ K r.1 ≠ .single
+
+theorem mem_markInf (K : Nat → Kind) (σ : State) (r x : Fact) (h : x ∈ markInf K σ r) :
+    x ∈ σ.inf ∨ (x = r ∧ K r.1 ≠ .single) := by
+  unfold markInf at h
+  cases hk : K r.1 with
+  | single => simp only [hk] at h; exact Or.inl h
+  | list =>
+    simp only [hk] at h
+    split at h
+    · exact Or.inl h
+    · rcases List.mem_append.mp h with h | h
+      · exact Or.inl h
+      · simp only [List.mem_singleton] at h; exact Or.inr ⟨h, by simp⟩
+  | set =>
+    simp only [hk] at h
+    split at h
+    · exact Or.inl h
+    · rcases List.mem_append.mp h with h | h
+      · exact Or.inl h
+      · simp only [List.mem_singleton] at h; exact Or.inr ⟨h, by simp⟩
+
+theorem markInf_mono (K : Nat → Kind) (σ : State) (r x : Fact) (h : x ∈ σ.inf) : x ∈ markInf K σ r := by
+  unfold markInf
+  split
+  · exact h
+  · split
+    · exact h
+    · exact List.mem_append_left _ h
+
+theorem addCore_markinv (R : Rules) (K : Nat → Kind) :
+    ∀ n σ r b, MarkInv K σ → MarkInv K (addCore R K n σ r b) := by
+  intro n
+  induction n with
+  | zero => intro σ r b h; exact h
+  | succ n ih =>
+    intro σ r b h
+    apply addCore_succ_preserves R K n (MarkInv K) (fun σ q hσ => ih σ q true hσ) σ r b
+    · intro _; exact h
+    · intro _ x hx
+      have hx' : x ∈ σ.inf ∨ (x = r ∧ K r.1 ≠ .single) := by
+        cases b
+        · exact Or.inl hx
+        · exact mem_markInf K σ r x hx
+      rcases hx' with hx' | ⟨rfl, hk⟩
+      · exact ⟨List.mem_cons_of_mem _ (h x hx').1, (h x hx').2⟩
+      · exact ⟨List.mem_cons_self, hk⟩
+
+theorem addCore_inf_mono (R : Rules) (K : Nat → Kind) (x : Fact) :
+    ∀ n σ r b, x ∈ σ.inf → x ∈ (addCore R K n σ r b).inf := by
+  intro n
+  induction n with
+  | zero => intro σ r b h; exact h
+  | succ n ih =>
+    intro σ r b h
+    apply addCore_succ_preserves R K n (fun τ => x ∈ τ.inf) (fun σ q hσ => ih σ q true hσ) σ r b
+    · intro _; exact h
+    · intro _
+      cases b
+      · exact h
+      · exact markInf_mono K σ r x h
+
+theorem addItem_markinv (R : Rules) (K : Nat → Kind) (n : Nat) (σ : State) (f s t : Nat) (h : MarkInv K σ) :
+    MarkInv K (addItem R K n σ f s t) := addCore_markinv R K n σ (f, s, t) false h
+
+theorem addItem_inf_mono (R : Rules) (K : Nat → Kind) (n : Nat) (σ : State) (f s t : Nat) (x : Fact)
+    (h : x ∈ σ.inf) : x ∈ (addItem R K n σ f s t).inf := addCore_inf_mono R K x n σ (f, s, t) false h
+
+theorem addItem_g_mono (R : Rules) (K : Nat → Kind) (n : Nat) (σ : State) (f s t : Nat) (x : Fact)
+    (h : x ∈ σ.g) : x ∈ (addItem R K n σ f s t).g := by
+  rw [addItem_g]; exact addFact_mono R n σ.g (f, s, t) x h
+
+theorem mem_inferredOf (σ : State) (f s t : Nat) : t ∈ inferredOf σ f s ↔ (f, s, t) ∈ σ.inf := by
+  simp only [inferredOf, List.mem_map, List.mem_filter, Bool.and_eq_true, beq_iff_eq]
+  constructor
+  · rintro ⟨r, ⟨hr, h1, h2⟩, rfl⟩
+    have : r = (f, s, r.2.2) := by rw [← h1, ← h2]
+    rw [← this]; exact hr
+  · intro h; exact ⟨(f, s, t), ⟨h, rfl, rfl⟩, rfl⟩
+
+theorem mem_foldl_addMissing (xs : List Nat) : ∀ (c : List Nat) (y : Nat),
+    y ∈ xs.foldl (fun c t => if t ∈ c then c else c ++ [t]) c ↔ y ∈ c ∨ y ∈ xs := by
+  induction xs with
+  | nil => intro c y; simp
+  | cons x xs ih =>
+    intro c y
+    simp only [List.foldl_cons, ih, List.mem_cons]
+    by_cases hx : x ∈ c
+    · simp only [hx, if_true]
+      constructor
+      · rintro (h | h); exact Or.inl h; exact Or.inr (Or.inr h)
+      · rintro (h | rfl | h); exact Or.inl h; exact Or.inl hx; exact Or.inr h
+    · simp only [hx, if_false, List.mem_append, List.mem_singleton]
+      constructor
+      · rintro ((h | h) | h); exact Or.inl h; exact Or.inr (Or.inl h); exact Or.inr (Or.inr h)
+      · rintro (h | h | h); exact Or.inl (Or.inl h); exact Or.inl (Or.inr h); exact Or.inr h
+
+theorem step_markinv (R : Rules) (K : Nat → Kind) (n : Nat) (σ : State) (op : Op) (h : MarkInv K σ) :
+    MarkInv K (step R K n σ op) := by
+  cases op with
+  | churn => exact h
+  | storeOnly f s t => exact h
+  | set1 f s t => exact addCore_markinv R K n _ (f, s, t) false h
+  | add f s t => exact addItem_markinv R K n σ f s t h
+  | assign f s xs =>
+    simp only [step]
+    have : MarkInv K ((hashOrder xs).foldl (fun h t => addItem R K n h f s t)
+        { σ with st := σ.st.set f s [], clob := σ.clob || (σ.st f s).any (fun t => !σ.inf.contains (f, s, t)) }) :=
+      foldl_inv (MarkInv K) _ (fun a t ha => addItem_markinv R K n a f s t ha) _ _ h
+    exact this
+  | assignQ f s xs muted =>
+    simp only [step]
+    apply foldl_inv (MarkInv K) _ _ _ _
+      (show MarkInv K { σ with st := σ.st.set f s [], clob := σ.clob || !(σ.st f s).isEmpty } from h)
+    intro a t ha
+    by_cases hm : muted.contains t = true
+    · simp only [hm, if_true]; exact ha
+    · simp only [hm]; exact addItem_markinv R K n a f s t ha
+
 theorem step_agree (R : Rules) (K : Nat → Kind) (n : Nat) (σ : State) (op : Op)
     (hwk : op.wellKinded K = true) (hc : (step R K (n + 1) σ op).clob = false)
-    (h : FieldsAgree K none σ) : FieldsAgree K none (step R K (n + 1) σ op) := by
+    (hmk : MarkInv K σ)
+    (h : FieldsAgree K [] σ) : FieldsAgree K [] (step R K (n + 1) σ op) := by
   cases op with
   | churn => exact h
   | storeOnly f s t => simp [Op.wellKinded] at hwk
@@ -931,31 +1064,97 @@ theorem step_agree (R : Rules) (K : Nat → Kind) (n : Nat) (σ : State) (op : O
           · exact h.nonempty f' s' t' hkf hm'
   | add f s t =>
     simp only [Op.wellKinded, bne_iff_ne, ne_eq] at hwk
-    exact addItem_agree R K n σ f s t hwk h
+    exact addItem_agree R K n σ f s t [] hwk h
   | assign f s xs =>
     simp only [Op.wellKinded, bne_iff_ne, ne_eq] at hwk
-    have hc0 := step_clob_false R K (n + 1) σ (.assign f s xs) hc
     simp only [step] at hc ⊢
-    -- the field was empty, so clearing it changed nothing
-    have hcl : (σ.clob || !(σ.st f s).isEmpty) = false := by
+    -- every element the field held was put there by inference
+    have hcl : (σ.clob || (σ.st f s).any (fun t => !σ.inf.contains (f, s, t))) = false := by
+      simp only [reAdd] at hc
       have := foldl_proj State.clob (fun h t => addItem R K (n + 1) h f s t) (fun c _ => c)
         (fun a t => addItem_clob R K (n + 1) a f s t) (hashOrder xs)
-        { σ with st := σ.st.set f s [], clob := σ.clob || !(σ.st f s).isEmpty }
+        { σ with st := σ.st.set f s [], clob := σ.clob || (σ.st f s).any (fun t => !σ.inf.contains (f, s, t)) }
       rw [this] at hc
       have hcc : ∀ (ts : List Nat) (c : Bool), ts.foldl (fun c _ => c) c = c := by
         intro ts; induction ts with
         | nil => intro c; rfl
         | cons _ _ ih => intro c; simpa using ih c
       rw [hcc] at hc; exact hc
-    have hempty : σ.st f s = [] := by
-      simp only [Bool.or_eq_false_iff, Bool.not_eq_false', List.isEmpty_iff] at hcl; exact hcl.2
-    have hst : ∀ f' s', (σ.st.set f s []) f' s' = σ.st f' s' := by
-      intro f' s'
+    have hold : ∀ t ∈ σ.st f s, (f, s, t) ∈ σ.inf := by
+      simp only [Bool.or_eq_false_iff, List.any_eq_false, Bool.not_eq_true, Bool.not_eq_false',
+        List.contains_iff_mem] at hcl
+      intro t ht; simpa using hcl.2 t ht
+    -- after the clear the fields agree with the graph except for the elements that were cleared
+    have A0 : FieldsAgree K ((σ.st f s).map fun t => (f, s, t))
+        { σ with st := σ.st.set f s [], clob := σ.clob || (σ.st f s).any (fun t => !σ.inf.contains (f, s, t)) } := by
+      refine ⟨?_, ?_, ?_⟩
+      · intro f' s' t' hkf hex
+        show t' ∈ (σ.st.set f s []) f' s' ↔ (f', s', t') ∈ σ.g
+        by_cases hfs : f' = f ∧ s' = s
+        · obtain ⟨rfl, rfl⟩ := hfs
+          rw [Store.set_same]
+          have hnot : t' ∉ σ.st f' s' := fun hh => hex (List.mem_map.mpr ⟨t', hh, rfl⟩)
+          rw [← h.cont f' s' t' hkf (by simp)]
+          simp [hnot]
+        · rw [Store.set_other _ _ _ _ _ _ hfs]; exact h.cont f' s' t' hkf (by simp)
+      · intro f' s' v hkf hv
+        have hff : ¬ (f' = f ∧ s' = s) := fun hh => hwk (hh.1 ▸ hkf)
+        change v ∈ (σ.st.set f s []) f' s' at hv
+        rw [Store.set_other _ _ _ _ _ _ hff] at hv
+        exact h.sing f' s' v hkf hv
+      · intro f' s' t' hkf hm
+        have hff : ¬ (f' = f ∧ s' = s) := fun hh => hwk (hh.1 ▸ hkf)
+        show (σ.st.set f s []) f' s' ≠ []
+        rw [Store.set_other _ _ _ _ _ _ hff]
+        exact h.nonempty f' s' t' hkf hm
+    -- the adds keep that, the graph and the remembered inferred elements only grow
+    let P : State → Prop := fun τ =>
+      FieldsAgree K ((σ.st f s).map fun t => (f, s, t)) τ ∧ MarkInv K τ ∧ (∀ x ∈ σ.g, x ∈ τ.g) ∧ (∀ x ∈ σ.inf, x ∈ τ.inf)
+    have A1 : P ((hashOrder xs).foldl (fun h t => addItem R K (n + 1) h f s t)
+        { σ with st := σ.st.set f s [], clob := σ.clob || (σ.st f s).any (fun t => !σ.inf.contains (f, s, t)) }) := by
+      apply foldl_inv P _ _ _ _ ⟨A0, hmk, fun x hx => hx, fun x hx => hx⟩
+      intro a t ⟨h1, h2, h3, h4⟩
+      exact ⟨addItem_agree R K n a f s t _ hwk h1, addItem_markinv R K (n + 1) a f s t h2,
+        fun x hx => addItem_g_mono R K (n + 1) a f s t x (h3 x hx),
+        fun x hx => addItem_inf_mono R K (n + 1) a f s t x (h4 x hx)⟩
+    generalize (hashOrder xs).foldl (fun h t => addItem R K (n + 1) h f s t)
+        { σ with st := σ.st.set f s [], clob := σ.clob || (σ.st f s).any (fun t => !σ.inf.contains (f, s, t)) } = τ at A1 ⊢
+    obtain ⟨h1, h2, h3, h4⟩ := A1
+    -- the inferred elements come back: nothing is excluded any more
+    refine ⟨?_, ?_, ?_⟩
+    · intro f' s' t' hkf _
+      show t' ∈ (τ.st.set f s _) f' s' ↔ (f', s', t') ∈ τ.g
       by_cases hfs : f' = f ∧ s' = s
-      · obtain ⟨rfl, rfl⟩ := hfs; rw [Store.set_same, hempty]
-      · exact Store.set_other _ _ _ _ _ _ hfs
-    apply foldl_inv (FieldsAgree K none) _ (fun a t ha => addItem_agree R K n a f s t hwk ha)
-    exact h.congr rfl hst
+      · obtain ⟨rfl, rfl⟩ := hfs
+        rw [Store.set_same, mem_foldl_addMissing, mem_inferredOf]
+        by_cases hM : (f', s', t') ∈ (σ.st f' s').map fun t => (f', s', t)
+        · have hold' : t' ∈ σ.st f' s' := by
+            obtain ⟨t0, ht0, he⟩ := List.mem_map.mp hM
+            simp only [Prod.mk.injEq, true_and] at he; exact he ▸ ht0
+          have hg : (f', s', t') ∈ τ.g := h3 _ ((h.cont f' s' t' hkf (by simp)).mp hold')
+          have hi : (f', s', t') ∈ τ.inf := h4 _ (hold t' hold')
+          exact ⟨fun _ => hg, fun _ => Or.inr hi⟩
+        · constructor
+          · rintro (hh | hh)
+            · exact (h1.cont f' s' t' hkf hM).mp hh
+            · exact (h2 _ hh).1
+          · intro hh; exact Or.inl ((h1.cont f' s' t' hkf hM).mpr hh)
+      · rw [Store.set_other _ _ _ _ _ _ hfs]
+        have hM : (f', s', t') ∉ (σ.st f s).map fun t => (f, s, t) := by
+          intro hh
+          obtain ⟨t0, _, he⟩ := List.mem_map.mp hh
+          simp only [Prod.mk.injEq] at he; exact hfs ⟨he.1.symm, he.2.1.symm⟩
+        exact h1.cont f' s' t' hkf hM
+    · intro f' s' v hkf hv
+      have hff : ¬ (f' = f ∧ s' = s) := fun hh => hwk (hh.1 ▸ hkf)
+      change v ∈ (τ.st.set f s _) f' s' at hv
+      rw [Store.set_other _ _ _ _ _ _ hff] at hv
+      exact h1.sing f' s' v hkf hv
+    · intro f' s' t' hkf hm
+      have hff : ¬ (f' = f ∧ s' = s) := fun hh => hwk (hh.1 ▸ hkf)
+      show (τ.st.set f s _) f' s' ≠ []
+      rw [Store.set_other _ _ _ _ _ _ hff]
+      exact h1.nonempty f' s' t' hkf hm
 
 /-! ## The property theorems -/
 
@@ -1026,29 +1225,30 @@ theorem C15_spec_total (S : Schema) (W : World) (hW : W.WF) (A : List Fact)
     · exact hA x h
   · exact Nat.lt_succ_of_le (missing_le _ _)
 
-/-- **C15_fields_agree.** After every well-kinded history in which no container assignment hit a non-empty field
-(the trigger of F-C15-1), the backing fields agree with the graph: a container field holds exactly the targets of
-its relations; a single-valued field holds one of its targets, and holds a value whenever it has a relation. -/
+/-- **C15_fields_agree.** After every well-kinded history in which no collection assignment replaced an earlier
+ASSERTED element (the trigger of F-C15-3; elements put into a field by inference survive an assignment), the backing
+fields agree with the graph: a container field holds exactly the targets of its relations; a single-valued field
+holds one of its targets, and holds a value whenever it has a relation. -/
 theorem C15_fields_agree (S : Schema) (W : World) (ops : List Op)
     (hwk : ∀ op ∈ ops, op.wellKinded S.kindOf = true) (hc : (runModel S W ops).clob = false) :
-    FieldsAgree S.kindOf none (runModel S W ops) := by
+    FieldsAgree S.kindOf [] (runModel S W ops) := by
   unfold runModel runOps fuelFor at *
   have key : ∀ (ops : List Op) (σ : State), (∀ op ∈ ops, op.wellKinded S.kindOf = true) →
-      (σ.clob = false → FieldsAgree S.kindOf none σ) →
+      (σ.clob = false → FieldsAgree S.kindOf [] σ) → MarkInv S.kindOf σ →
       (ops.foldl (step (schemaRules S W) S.kindOf ((allFacts S.fields.length W.size).length + 1)) σ).clob = false →
-      FieldsAgree S.kindOf none
+      FieldsAgree S.kindOf []
         (ops.foldl (step (schemaRules S W) S.kindOf ((allFacts S.fields.length W.size).length + 1)) σ) := by
     intro ops
     induction ops with
-    | nil => intro σ _ h hc; exact h hc
+    | nil => intro σ _ h _ hc; exact h hc
     | cons op ops ih =>
-      intro σ hwk h hc
+      intro σ hwk h hmk hc
       simp only [List.foldl_cons] at hc ⊢
-      apply ih _ (fun o ho => hwk o (List.mem_cons_of_mem _ ho)) _ hc
+      apply ih _ (fun o ho => hwk o (List.mem_cons_of_mem _ ho)) _ (step_markinv _ _ _ σ op hmk) hc
       intro hc1
-      exact step_agree _ _ _ σ op (hwk op List.mem_cons_self) hc1
+      exact step_agree _ _ _ σ op (hwk op List.mem_cons_self) hc1 hmk
         (h (step_clob_false _ _ _ σ op hc1))
-  apply key ops State.init hwk _ hc
+  apply key ops State.init hwk _ (by intro r hr; simp [State.init] at hr) hc
   intro _
   have hinit : ∀ f s, State.init.st f s = [] := fun _ _ => rfl
   exact ⟨by intro f s t _ _; rw [hinit]; simp [State.init], by intro f s v _ hv; rw [hinit] at hv; simp at hv,
@@ -1099,10 +1299,16 @@ theorem C15_cex_falsy_not_recorded :
     σ.st 1 0 = [1] ∧ σ.g = [] ∧
     (runModel exSchema exWorld [.add 1 0 1]).g.length = 2 := by decide
 
-/-- F-C15-1 (test): a collection assigned to a field that already holds an inferred element loses it, while the
-relation stays in the graph — `c.members = {p}` then `p.member_of = [d]` -/
-theorem C15_cex_assign_clobbers :
+/-- F-C15-1, repaired (test): `c.members = {p}` then `p.member_of = [d]` — the element inference had put into the
+field survives the assignment, field and graph agree -/
+theorem C15_assign_keeps_inferred :
     let σ := runModel exSchema exWorld [.assign 2 1 [0], .assign 1 0 [2]]
-    σ.clob = true ∧ (1, 0, 1) ∈ σ.g ∧ 1 ∉ σ.st 1 0 := by decide
+    σ.clob = false ∧ (1, 0, 1) ∈ σ.g ∧ σ.st 1 0 = [2, 1] := by decide
+
+/-- F-C15-3 (test): re-assignment replaces an earlier ASSERTED element; its relation (and the inverse) stay in the
+graph — there is no retraction — so field and graph disagree -/
+theorem C15_cex_reassign_asserted :
+    let σ := runModel exSchema exWorld [.assign 1 0 [1], .assign 1 0 [2]]
+    σ.clob = true ∧ (1, 0, 1) ∈ σ.g ∧ (2, 1, 0) ∈ σ.g ∧ σ.st 1 0 = [2] := by decide
 
 end KrroodVerif.PD
